@@ -51,6 +51,34 @@ def permute (f : Nat → Nat) (a : List R) : List R :=
 /-- `BitReverse(v)`, `len v = 2^m` -/
 def bitReverse (m : Nat) (a : List R) : List R := permute (bitrev m) a
 
+/-! #### streaming digest of `BitReverse` on huge vectors given by a formula (op `bitrevbig`: the 2^21 … 2^28 routines)
+
+`bitrev (a+b) (hi·2^b + lo) = bitrev b lo · 2^a + bitrev a hi` (`bitrev_split`, Proofs/FFT.lean): two tables of `bitrev` of
+size `2^a`, `2^b` replace the `a+b` recursion steps per index; nothing of size `2^(a+b)` is materialised. -/
+
+/-- `[bitrev a 0, …, bitrev a (2^a−1)]` -/
+def bitrevTable (a : Nat) : Array Nat := ((List.range (2^a)).map (bitrev a)).toArray
+
+/-- `bitrev (a+b) i` for `i < 2^(a+b)`, with `pa = 2^a`, `pb = 2^b`, `ta = bitrevTable a`, `tb = bitrevTable b` -/
+def bitrevSplit (pa pb : Nat) (ta tb : Array Nat) (i : Nat) : Nat :=
+  tb.getD (i % pb) 0 * pa + ta.getD (i / pb) 0
+
+/-- `acc + Σ_{i ≤ j < i+fuel} (j+1)·v[rev j]  mod M`, `v[k] = (k·mult + 1) mod q`  (`M` is an argument, not a literal: the
+compiler would re-parse a literal ≥ 2^32 in every iteration) -/
+def bitrevDigestLoop (M q mult pa pb : Nat) (ta tb : Array Nat) : Nat → Nat → Nat → Nat
+  | 0, _, acc => acc
+  | fuel+1, i, acc =>
+    bitrevDigestLoop M q mult pa pb ta tb fuel (i+1)
+      ((acc + (i+1) * ((bitrevSplit pa pb ta tb i * mult + 1) % q)) % M)
+
+/-- digest `Σ_i (i+1)·BitReverse(v)[i] mod 2^61−1` of `v[k] = (k·mult+1) mod q`, `len v = 2^m` -/
+def bitrevDigest (q m mult : Nat) : Nat :=
+  let b := m / 2
+  let a := m - b
+  -- speed only: for `q ≥ 2^62` every `k·mult+1 < 2^(28+16)` is already reduced and `x % 0 = x`; keeps the loop on machine-word naturals
+  let q' := if m ≤ 28 ∧ mult < 2^16 ∧ q ≥ 2^62 then 0 else q
+  bitrevDigestLoop (2^61 - 1) q' mult (2^a) (2^b) (bitrevTable a) (bitrevTable b) (2^m) 0 0
+
 /-! ### specification: the discrete Fourier transform -/
 
 def dftAt (w : R) (a : List R) (k : Nat) : R :=
@@ -343,10 +371,10 @@ def handle (args : List String) : String :=
   | ["bitrevbig", _field, qs, ms, mults] =>
     match parseHex qs, parseHex ms, parseHex mults with
     | some q, some m, some mult =>
-      -- v[i] = (i*mult+1) mod q ; digest Σ (i+1)·BitReverse(v)[i] mod 2^61-1
-      let n := 2^m
-      let d := (List.range n).foldl (fun acc i => (acc + (i+1) * ((bitrev m i * mult + 1) % q)) % (2^61-1)) 0
-      toHex d
+      -- v[i] = (i*mult+1) mod q ; digest Σ (i+1)·BitReverse(v)[i] mod 2^61-1 ; then "1": BitReverse∘BitReverse = id
+      -- (C10_bitReverse_involution; the Go side compares the twice-reversed vector with v)
+      if m > 28 || mult == 0 || mult ≥ 2^16 || mult * 2^(2*m) ≥ 2^62 then "bad-op"   -- range in which the Go digest cannot overflow
+      else toHex (bitrevDigest q m mult) ++ " 1"
     | _, _, _ => "bad-op"
   | ["domain", _field, qs, roots, ss, mgs, custom, ms] =>
     match parseHex qs, parseHex roots, parseHex ss, parseHex mgs, parseHex ms with
